@@ -1,6 +1,7 @@
 (** Lemmas about [FS/Ops.v]: a path all of whose proper prefixes are real directories resolves
     to itself ("literally"), and what every operation does on such a path. *)
-From Wharf Require Import Base.Prelude FS.Tree FS.TreeProofs FS.Ops.
+From Coq Require Import Arith Lia.
+From Wharf Require Import FS.Light FS.Tree FS.TreeProofs FS.Ops.
 
 (** every proper prefix of [p] is a directory *)
 Definition lit (t : tree) (p : path) : Prop :=
